@@ -13,7 +13,7 @@ EXPLANATION = (
     "Static structural obligations: (UNION) in add_batch the first argument of BatchAccessor::new is fetch_all_reads(inner builder) "
     "extended with exactly <T::BatchSystemData as SystemData>::reads(), the second fetch_all_writes(inner) extended with exactly "
     "...::writes() (two separate locals, so nothing is crossed); (ALL) fetch_all_reads / fetch_all_writes return a full traversal "
-    "(iter, flatten twice, cloned, collect; no partial adaptor) of the field that accumulates declared reads / writes in insert; "
+    "(every level traversed in full, however spelled; no partial adaptor) of the field that accumulates declared reads / writes in insert; "
     "(ACCUM) the accumulated tables only ever grow - their shape changes only in add_stage/add_group/insert; (SAME) the builder whose tables were read is the one whose build() result goes to BatchControllerSystem::create, and the reads "
     "happen before build consumes it; (WIRE) BatchAccessor::new/reads/writes, create and accessor() wire the same-named fields; "
     "(NOFETCH) BatchUncheckedWorld borrows nothing itself; (PLAN) MultiDispatcher moves its plan data into plan before the first "
@@ -21,7 +21,7 @@ EXPLANATION = (
     "accumulates the batch accessor into the outer tables. A user controller's own manual fetches are its contract.")
 ASSUMPTIONS = ["a user-written BatchController fetches only what it declares as BatchSystemData"]
 TRUSTED = ["rustc nightly MIR construction", "shred-facts driver", "shredlint analyses"]
-TECHNIQUE = 'static: path enumeration of add_batch (union operands, assembly order), iterator-chain term of fetch_all_reads/writes, field wiring terms, lock-step (tables only grow), MultiDispatcher plan-data rule'
+TECHNIQUE = 'static: structured evaluation of add_batch (what each operand of BatchAccessor::new is built from, assembly order) and of fetch_all_reads/writes (three full nested traversals of the accumulating table), field wiring terms, lock-step (tables only grow), MultiDispatcher plan rule'
 RULE_TEXT = "one obligation per union operand, traversal chain, wiring site and imported slot obligation"
 
 
